@@ -78,6 +78,11 @@ structure Config where
   costs the response (see `handleInputF`). `true` (proposed fix C11-handler-failure): such a
   request is answered with -32603 Internal error. -/
   internalErrorOnHandlerFailure : Bool := false
+  /-- `false` (current code): an Invalid Request answer (wrong version, no method, bad params)
+  echoes the request's `id` whatever its type — also an array, an object, a boolean, a fractional
+  number. `true` (proposed fix C11-invalid-request-id): only a string or a number is echoed,
+  anything else becomes Null. -/
+  legalIdEchoOnly : Bool := false
   deriving Repr, DecidableEq
 
 /-- The server as it is in the current tree (the harness probes the real server and refuses to
@@ -406,6 +411,15 @@ structure ReqOut where
 
 def idJson (id : Option Json) : Json := id.getD .null
 
+/-- the id an Invalid Request answer carries -/
+def echoId (cfg : Config) (id : Option Json) : Json :=
+  if cfg.legalIdEchoOnly then
+    match id with
+    | some (.str s) => .str s
+    | some (.num t) => .num t
+    | _ => .null
+  else idJson id
+
 def handleRequest (cfg : Config) (env : Env) (tbl : Table) (req : Request) : ReqOut :=
   match isSane req with
   | some e => { res := .error e }
@@ -435,12 +449,12 @@ def handleRequest (cfg : Config) (env : Env) (tbl : Table) (req : Request) : Req
 
 /-- What both callers of `handleRequest` do with its error: an Invalid Request response that
 carries the request's id unless the id itself was the problem. -/
-def finishRequest (req : Request) (o : ReqOut) : Option Response × List Call :=
+def finishRequest (cfg : Config) (req : Request) (o : ReqOut) : Option Response × List Call :=
   match o.res with
   | .ok r => (r, o.log)
   | .error e =>
     let r := errResponse InvalidRequest (some (.str e.msg))
-    (some (if e = .id then r else { r with id := idJson req.id }), o.log)
+    (some (if e = .id then r else { r with id := echoId cfg req.id }), o.log)
 
 /-- One syntactically valid JSON value handled as a request. `decodeFailCode` is what a failing
 `Decode(*Request)` is answered with: -32700 for a single request, -32600 inside a batch. -/
@@ -448,7 +462,7 @@ def handleEntry (cfg : Config) (env : Env) (tbl : Table) (decodeFailCode : Int) 
     Option Response × List Call :=
   match decodeRequest j with
   | none => (some (errResponse decodeFailCode (some opaqueData)), [])
-  | some req => finishRequest req (handleRequest cfg env tbl req)
+  | some req => finishRequest cfg req (handleRequest cfg env tbl req)
 
 /-! ## HandleReader -/
 
